@@ -275,7 +275,8 @@ def check_case(case, rec):
             if ok and canon_safe(z) != canon_safe(x) and not wl_equal(x, z) and not in_gap(x) and not in_gap(z) and \
                     not vicinal_n_oxides(x) and not vicinal_n_oxides(m):
                 rec.fail('numbering', f'{label}: result {canon_safe(x)!r} vs {canon_safe(z)!r} after renumbering '
-                                      f'(tautomer fixing {"on" if ft else "off"})', sig=op)
+                                      f'(tautomer fixing {"on" if ft else "off"})',
+                         sig='two-donor-cation' if two_donor_cation(x) or two_donor_cation(z) else op)
                 return
     rec.sample('molecule', s0, cap=5)
 
